@@ -13,12 +13,14 @@ for d in sorted(glob.glob(os.path.join(V, "seeded", "*"))):
     rows.append("| %s | %s (%s) | %s | %s |" % (name, title, files, m.get("checks_run", ""), (m.get("outcome", "") + ((": " + m["note"]) if m.get("note") else "")).replace("|", "/").replace("\n", " ")))
 n = len(rows)
 caught = sum(1 for r in rows if "| caught" in r)
+found = sum(1 for r in rows if "| found-defect" in r)
 text = ("<!-- CATCH-TABLE-BEGIN -->\n"
         "%d deliberate breakages, each written by a fresh sub-agent that saw only the property text and a scratch worktree, each\n"
         "confirmed (its demonstration fails on the changed tree and passes on the unchanged one) and run against the checks with\n"
-        "`tools/try_mutant.py` (quick tier, 40-60 s): %d caught, %d not.\n\n"
+        "`tools/try_mutant.py` (quick tier, 40-60 s): %d caught, %d not caught, %d whose scenario exposed the same hole in the\n"
+        "unchanged tree (repaired there; the change is harmless afterwards).\n\n"
         "| change | what it does (file) | checks run | outcome |\n|---|---|---|---|\n%s\n"
-        "<!-- CATCH-TABLE-END -->") % (n, caught, n - caught, "\n".join(rows))
+        "<!-- CATCH-TABLE-END -->") % (n, caught, n - caught - found, found, "\n".join(rows))
 p = os.path.join(V, "DESIGN.md")
 s = open(p).read()
 if "<!-- CATCH-TABLE-BEGIN -->" in s:
